@@ -21,6 +21,7 @@ type ocConn struct {
 	mu        sync.Mutex
 	writes    [][]byte
 	failNext  bool
+	onFail    func(p []byte)
 	in        chan []byte
 	reads     int // number of Read calls entered
 	inRead    bool
@@ -57,6 +58,12 @@ func (c *ocConn) Write(p []byte) (int, error) {
 	defer c.mu.Unlock()
 	if c.failNext {
 		c.failNext = false
+		if f := c.onFail; f != nil {
+			c.onFail = nil
+			c.mu.Unlock()
+			f(append([]byte(nil), p...)) // what another goroutine may do while this write is failing (no client lock is held here)
+			c.mu.Lock()
+		}
 		return 0, errOracleWrite
 	}
 	c.writes = append(c.writes, append([]byte(nil), p...))
@@ -149,6 +156,7 @@ type ocWorld struct {
 	history  []string
 	noClose  bool
 	dos      []*ocDo
+	raced    bool
 }
 
 type ocDo struct {
@@ -350,7 +358,9 @@ func (w *ocWorld) opStart(id byte, size int, mutateAfter bool) *ocTx {
 		w.o.failf("Start after Close returned %v, expected ErrClientClosed; history %s", err, w.hist())
 	}
 	w.checkWrites("Start")
-	if err == nil && len(tx.txTimes) != 1 {
+	raced := w.raced
+	w.raced = false
+	if err == nil && len(tx.txTimes) != 1 && !(raced && len(tx.txTimes) == 0) {
 		w.o.failf("Start of %s returned nil but wrote the request %d times; history %s", tx.name, len(tx.txTimes), w.hist())
 	}
 	return tx
@@ -577,6 +587,28 @@ func (w *ocWorld) opFailNextWrite() {
 	w.conn.mu.Unlock()
 }
 
+// opFailNextWriteRacingResponse: the next write fails, and while it is failing the reader processes a response for
+// the very transaction being written (simulated interleaving: the failing Write calls Agent.Process itself; the client
+// holds no lock while it writes). The transaction must still complete exactly once and later transactions must be
+// unaffected, however the transaction objects are recycled.
+func (w *ocWorld) opFailNextWriteRacingResponse() {
+	w.history = append(w.history, "failNextWrite+responseDuringIt")
+	w.conn.mu.Lock()
+	w.conn.failNext = true
+	w.conn.onFail = func(p []byte) {
+		w.raced = true // the failing write did reach the peer (it answered): not counted as "nothing was written"
+		if len(p) < 20 {
+			return
+		}
+		m := new(Message)
+		m.Raw = append(m.Raw, w.response(p[8], 1)...)
+		if m.Decode() == nil {
+			_ = w.agent.Agent.Process(m)
+		}
+	}
+	w.conn.mu.Unlock()
+}
+
 func (w *ocWorld) opFailNextAgentStart() {
 	w.history = append(w.history, "failNextAgentStart")
 	w.agent.failStart = true
@@ -774,6 +806,8 @@ func (w *ocWorld) run(ops string, sizes []int) {
 			w.opTick(d)
 		case 'w':
 			w.opFailNextWrite()
+		case 'P':
+			w.opFailNextWriteRacingResponse()
 		case 'a':
 			w.opFailNextAgentStart()
 		case 'x':
@@ -848,14 +882,14 @@ func (o *oracle) clientHistories(alphabet string, depth int, random int) {
 func TestOracleC10(t *testing.T) {
 	o := newOracle(t)
 	// targeted histories first (cheap), then exhaustive depth 4, then random
-	for _, h := range []string{"sc", "sTc", "sTTTc", "swTc", "wsc", "wssTr", "asTr", "asc", "sSrRc", "srdc", "sTwTc", "sTrd", "sSTTTTc", "Dq", "Dc", "DTTTc", "DsqrDq", "wDc", "DTwTc"} {
+	for _, h := range []string{"sc", "sTc", "sTTTc", "swTc", "wsc", "wssTr", "asTr", "asc", "sSrRc", "srdc", "sTwTc", "sTrd", "sSTTTTc", "Dq", "Dc", "DTTTc", "DsqrDq", "wDc", "DTwTc", "sPTSsrR", "sPTsSRr", "PsSrR"} {
 		w := newOcWorld(o, 2, 100*time.Millisecond, false, true)
 		if w != nil {
 			o.cases++
 			w.run(h, []int{20})
 		}
 	}
-	o.clientHistories("sSrRdgTwacDq", 4, 100000)
+	o.clientHistories("sSrRdgTwacDqP", 4, 100000)
 }
 
 // C11: bit-identical, bounded, on-schedule retransmissions.
@@ -876,7 +910,14 @@ func TestOracleC11(t *testing.T) {
 // C12: routing by transaction id, many transactions, recycled objects.
 func TestOracleC12(t *testing.T) {
 	o := newOracle(t)
-	o.clientHistories("sSrRdgT", 4, 0)
+	for _, h := range []string{"sPTSsrR", "sPTsSRr", "sPTSLrR"} {
+		w := newOcWorld(o, 2, 100*time.Millisecond, false, true)
+		if w != nil {
+			o.cases++
+			w.run(h, []int{20})
+		}
+	}
+	o.clientHistories("sSrRdgTP", 4, 0)
 	for o.more() {
 		o.cases++
 		w := newOcWorld(o, 2, 100*time.Millisecond, false, o.rng.Intn(2) == 0)
